@@ -466,7 +466,7 @@ func observed(root string, sc *ck.Script) *sim {
 // execSegment runs one earlier process on the prepared directory: history, then
 // the final operation killed at window call seg.K.  The crash itself is a case
 // (model comparison + oracle) of the script truncated at this segment.
-func execSegment(sc *ck.Script, i int, p *prepared) {
+func execSegment(sc *ck.Script, i int, p *prepared) bool {
 	seg := &sc.Pre[i]
 	trunc := &ck.Script{Blobs: sc.Blobs, Pre: sc.Pre[:i], History: seg.History, Final: seg.Final}
 	before := p.sim.clone()
@@ -478,6 +478,9 @@ func execSegment(sc *ck.Script, i int, p *prepared) {
 	scriptPath := writeScript(p.dir, sc.Blobs, seg.History, seg.Final)
 	rec := p.fresh("prerec")
 	tr, err := ck.Run(exe, rec, scriptPath, filepath.Dir(rec), nil)
+	if cannotReopen(tr, err) {
+		return false
+	}
 	if err != nil || !tr.HasBegin || !tr.HasEnd {
 		panic(fmt.Sprintf("recording run of an earlier segment failed: %v (script %s)", err, sc.JSON()))
 	}
@@ -508,6 +511,19 @@ func execSegment(sc *ck.Script, i int, p *prepared) {
 	}
 	run.Count("earlier-crashes")
 	p.sim = observed(p.base, sc)
+	return true
+}
+
+// cannotReopen: the child could not open the directory an earlier crash left
+// behind.  That is the violation "the directory can be opened again"; the
+// oracle has reported it (reopen-fails) on the crash that caused it, so the rest
+// of the script is abandoned.
+func cannotReopen(tr *ck.Trace, err error) bool {
+	if err != nil && tr != nil && strings.Contains(tr.Stdout, "CHILD-ERROR new:") {
+		run.Count("script-abandoned-after-unrecoverable-crash")
+		return true
+	}
+	return false
 }
 
 // runMain: the last process of the script.  Record its final operation, then
@@ -524,6 +540,9 @@ func runMain(sc *ck.Script, p *prepared, onlyK int, allK bool) {
 	hexJSON := common.Hex(sc.JSON())
 	rec := p.fresh("rec")
 	tr, err := ck.Run(exe, rec, scriptPath, filepath.Dir(rec), nil)
+	if cannotReopen(tr, err) {
+		return
+	}
 	if err != nil || !tr.HasBegin || !tr.HasEnd {
 		panic(fmt.Sprintf("recording run failed: %v (script %s)", err, sc.JSON()))
 	}
@@ -620,7 +639,9 @@ func runScript(sc *ck.Script, onlyK int, allK bool) {
 	p := newPrepared()
 	defer p.close()
 	for i := range sc.Pre {
-		execSegment(sc, i, p)
+		if !execSegment(sc, i, p) {
+			return
+		}
 	}
 	runMain(sc, p, onlyK, allK)
 }
@@ -755,7 +776,9 @@ func runGenerated(r *common.Rand, histLen int, kind string, big bool, allK bool,
 		seg.Final = realize(r, kind, s, &seg.History)
 		seg.K = r.Intn(1000)
 		sc.Pre = append(sc.Pre, seg)
-		execSegment(sc, i, p)
+		if !execSegment(sc, i, p) {
+			return
+		}
 	}
 	s := p.sim.clone()
 	sc.History = genHistory(r, sc, s, histLen)
